@@ -1,4 +1,25 @@
+//! Harness: one subcommand per property; runs the implementation (norad at /repo, working tree)
+//! on generated / enumerated inputs and writes what it did for the driver to compare with the model.
+mod c01;
+mod c02;
+mod c03;
+mod c04;
+mod c05;
+mod c06;
+mod c07;
+mod c08;
+mod c09;
+mod c10;
 mod c11;
+mod c12;
+mod c13;
+mod c14;
+mod c15;
+mod c16;
+mod c17;
+mod c18;
+mod c19;
+mod c20;
 mod util;
 
 fn main() {
@@ -10,7 +31,26 @@ fn main() {
     }
     let a = util::Args::parse(&argv[1..]);
     match argv[0].as_str() {
+        "c01" => c01::main(&a),
+        "c02" => c02::main(&a),
+        "c03" => c03::main(&a),
+        "c04" => c04::main(&a),
+        "c05" => c05::main(&a),
+        "c06" => c06::main(&a),
+        "c07" => c07::main(&a),
+        "c08" => c08::main(&a),
+        "c09" => c09::main(&a),
+        "c10" => c10::main(&a),
         "c11" => c11::main(&a),
+        "c12" => c12::main(&a),
+        "c13" => c13::main(&a),
+        "c14" => c14::main(&a),
+        "c15" => c15::main(&a),
+        "c16" => c16::main(&a),
+        "c17" => c17::main(&a),
+        "c18" => c18::main(&a),
+        "c19" => c19::main(&a),
+        "c20" => c20::main(&a),
         other => {
             eprintln!("unknown subcommand {}", other);
             std::process::exit(2);
